@@ -37,7 +37,7 @@ func main() {
 		c3.Lap("C03", &t0, "forced schedule")
 		// (2) histories: the C03 generator, then the general plugin generator under the C03 monitor
 		p := c3.ProfileC03()
-		b := c3.RunScripts(e, "C03", e.N(700, 14000), func(rng *rand.Rand) (plugin.Conf, plugin.Script, int) {
+		b := c3.RunScripts(e, "C03", e.N(1500, 14000), func(rng *rand.Rand) (plugin.Conf, plugin.Script, int) {
 			conf := c3.GenConf3(rng, p)
 			return conf, c3.NewGen3(rng, conf, p).Next, p.Len
 		}, mon, c3.MonHits)
@@ -45,13 +45,13 @@ func main() {
 		c3.Lap("C03", &t0, "profile c03-mix")
 		p2 := c3.ProfileC03()
 		p2.Name, p2.Len, p2.SettlePct, p2.DropPct, p2.ScaleW, p2.FaultPct = "c03-lost-events", 80, 14, 70, 3.5, 3
-		b2 := c3.RunScripts(e, "C03", e.N(400, 8000), func(rng *rand.Rand) (plugin.Conf, plugin.Script, int) {
+		b2 := c3.RunScripts(e, "C03", e.N(900, 8000), func(rng *rand.Rand) (plugin.Conf, plugin.Script, int) {
 			conf := c3.GenConf3(rng, p2)
 			return conf, c3.NewGen3(rng, conf, p2).Next, p2.Len
 		}, mon, c3.MonHits)
 		b2.Fill(r)
 		c3.Lap("C03", &t0, "profile c03-lost-events")
-		b3 := plugin.RunCorrespondence(e, "C03", e.N(400, 8000), plugin.DefaultParams(), mon)
+		b3 := plugin.RunCorrespondence(e, "C03", e.N(600, 8000), plugin.DefaultParams(), mon)
 		b3.Fill(r)
 		c3.Lap("C03", &t0, "profile plugin-default")
 		r.Extra["profiles"] = []string{"c03-mix", "c03-lost-events", "plugin-default"}
